@@ -885,6 +885,9 @@ pub fn gen_message(s: &S, g: &mut G) -> V {
         if g.rng.chance(1, 6) {
             equalize(s, &mut v, g.rng);
         }
+        if g.rng.chance(1, 6) {
+            relate_lengths(s, &mut v, g.rng);
+        }
         canonicalize(&mut v);
         if crate::cbor::encode(&v).len() + 1 <= MAX_MSG {
             return v;
@@ -1209,6 +1212,50 @@ pub fn within_limit(s: &S, v: &V) -> Option<bool> {
         (S::Array { max, .. }, V::A(a)) => a.len() <= *max,
         _ => return None,
     })
+}
+
+/// Make an integer member a function of the LENGTH of a sized member of the same message (value
+/// relations such as length < len(set), offset + len(set) crossing 2^32, getKeyAgreement-style
+/// counters equal to a list length): len − 1, len, len + 1, max − len, max − len + 1; half of the
+/// time the integer is also paired with a zero in another integer member (offset 0).
+pub fn relate_lengths(s: &S, v: &mut V, rng: &mut Rng) {
+    let ns = nodes(s, v);
+    let ints: Vec<(Path, u64)> = ns.iter().filter_map(|n| match n.s { S::UInt { max } => Some((n.path.clone(), *max)), _ => None }).collect();
+    let sized: Vec<usize> = ns
+        .iter()
+        .filter_map(|n| match (n.s, at(v, &n.path)) {
+            (S::Bytes { .. }, Some(V::B(b))) | (S::Text { .. }, Some(V::T(b))) => Some(b.len()),
+            (S::Array { .. }, Some(V::A(a))) => Some(a.len()),
+            _ => None,
+        })
+        .collect();
+    if ints.is_empty() || sized.is_empty() {
+        return;
+    }
+    let (path, max) = ints[rng.usize(ints.len())].clone();
+    let len = sized[rng.usize(sized.len())] as u64;
+    let val = match rng.below(5) {
+        0 => len.saturating_sub(1),
+        1 => len,
+        2 => len + 1,
+        3 => max.saturating_sub(len),
+        _ => max.saturating_sub(len).saturating_add(1),
+    };
+    if val > max {
+        return;
+    }
+    if let Some(slot) = at_mut(v, &path) {
+        *slot = V::U(val);
+    }
+    if rng.bool() {
+        let others: Vec<&(Path, u64)> = ints.iter().filter(|i| i.0 != path).collect();
+        if !others.is_empty() {
+            let o = others[rng.usize(others.len())];
+            if let Some(slot) = at_mut(v, &o.0) {
+                *slot = V::U(0);
+            }
+        }
+    }
 }
 
 /// Make two same-typed leaf members carry the SAME value (value relations such as
